@@ -26,7 +26,7 @@ RULE = ('part X: every hierarchy of n<=N classes in definition order where class
 ASSUME = ['CPython 3.12 type() is the reference for linearisation; inspect.getdoc for inherited docstrings',
           'classes whose creation CPython refuses for a reason propagated from an earlier refused class are not judged']
 DECIDING = {'project_classes_judged': 2000, 'classes_judged': 3000, 'inconsistent_judged': 50, 'find_compared': 3000, 'doc_compared': 1000,
-            'tables_compared': 100, 'overrides_compared': 100, 'rendered_doc_compared': 1000, 'page_tables_compared': 500, 'hierarchies_with_hidden_members': 30, 'reexported_classes': 100}
+            'tables_compared': 100, 'overrides_compared': 100, 'rendered_doc_compared': 1000, 'page_tables_compared': 500, 'dotted_lookup_compared': 3000, 'hierarchies_with_hidden_members': 30, 'reexported_classes': 100}
 CPU_S = 900
 
 MEMBERS = ['m0', 'm1', 'v0']
@@ -432,6 +432,16 @@ def _judge2(res: core.Res, mods: Dict[str, str], label: str, classes: Dict[str, 
             fgot = found.fullName() if found is not None else None
             if fexp != fgot:
                 res.v('C05:find-differs', f'{full}.find({m!r}) = {fgot}, attribute lookup finds {fexp} ({label})', cls=full, **w)
+            # the same lookup written as a dotted name (what `L{K.m}` or an alias `x = K.m` names), from the scope that holds the class
+            if fexp is not None and obj.parent is not None:
+                res.c('dotted_lookup_compared')
+                try:
+                    dgot_ = obj.parent.resolveName(f'{obj.name}.{m}')
+                except Exception as e:  # noqa: BLE001
+                    dgot_ = e
+                dname = dgot_.fullName() if hasattr(dgot_, 'fullName') else repr(dgot_)
+                if dname != fexp:
+                    res.v('C05:dotted-lookup-differs', f'{obj.parent.fullName()}.resolveName({obj.name + "." + m!r}) = {dname}, attribute lookup finds {fexp} ({label})', cls=full, **w)
             if m.startswith('m') and m in cls.__dict__:
                 own = obj.contents.get(m)
                 if own is not None:
